@@ -692,21 +692,27 @@ func (c *AttackCtx) encryptOp(root *etree.Element, op Op) *etree.Element {
 // namespace it carries, and whether all of them are direct children of the root.
 func CountAssertionElements(root *etree.Element) (assertions, encrypted int, allDirect bool) {
 	allDirect = true
-	for _, e := range allElems(root) {
-		if nsOf(e) != NSAssertion {
-			continue
+	var walk func(e *etree.Element)
+	walk = func(e *etree.Element) {
+		if nsOf(e) == NSAssertion && (e.Tag == "Assertion" || e.Tag == "EncryptedAssertion") {
+			if e.Tag == "Assertion" {
+				assertions++
+			} else {
+				encrypted++
+			}
+			if e.Parent() != root {
+				allDirect = false
+			}
+			if e.Tag == "EncryptedAssertion" {
+				// an XML-Encryption processor replaces the whole element by its plaintext: whatever else an
+				// attacker parks inside it is discarded, never inspected and never honoured
+				return
+			}
 		}
-		switch e.Tag {
-		case "Assertion":
-			assertions++
-		case "EncryptedAssertion":
-			encrypted++
-		default:
-			continue
-		}
-		if e.Parent() != root {
-			allDirect = false
+		for _, ch := range e.ChildElements() {
+			walk(ch)
 		}
 	}
+	walk(root)
 	return
 }
